@@ -98,9 +98,14 @@ func genAtt(rng *rand.Rand, w *world, sh *share, meta *relMeta) attReq {
 		}
 	}
 	var r attReq
-	switch pickW(rng, []int{22, 16, 6, 10, 10, 8, 8, 9, 11}) {
+	switch pickW(rng, []int{22, 16, 6, 10, 10, 8, 8, 9, 11, 9}) {
 	case 0:
 		return duty("duty")
+	case 9: // a wide but legal vote (source = stored source mark): later requests can be surrounded by it
+		if !present || ms >= E {
+			return duty("duty")
+		}
+		r = attReq{ms, E, salt, "wide"}
 	case 1:
 		if rel == nil {
 			return duty("duty")
@@ -680,7 +685,7 @@ func runHistory(c *evid.Case, rng *rand.Rand, p histParams) *histResult {
 				wDelete = 0
 			}
 		}
-		op := pickW(rng, []int{wSignA, wSignB, 12, wAdd, wRemove, wLiq, wReact, 6, wCrash, wReadErr, wDelete})
+		op := pickW(rng, []int{wSignA, wSignB, 20, wAdd, wRemove, wLiq, wReact, 6, wCrash, wReadErr, wDelete})
 		var crashed bool
 		var opName string
 		switch op {
